@@ -46,6 +46,10 @@ impl Stream {
     pub fn memory_usage(&self) -> (r: usize) { unimplemented!() }
     #[verifier::external_body]
     pub fn len(&self) -> (r: usize) { unimplemented!() }
+    #[verifier::external_body]
+    pub fn is_empty(&self) -> (r: bool) { unimplemented!() }
+    #[verifier::external_body]
+    pub fn clear(&self) { unimplemented!() }
 }
 impl Value {
     #[verifier::external_body]
